@@ -426,16 +426,6 @@ func (e *histEnv) labelsBefore(op Op) []string {
 		}
 	}
 	lst := func(p string) fs.FileInfo { fi, _ := os.Lstat(real(p)); return fi }
-	if op.K == "remove" || op.K == "removeall" || op.K == "rename" {
-		// the root of the base itself is removed or moved away (PrefixFS lets Remove("/") unlink the prefix
-		// directory once it is empty): Rollback skips the root ("skip root directory from restoration") and can
-		// then restore nothing below it
-		for _, n := range names {
-			if path.Clean("/"+n) == "/" {
-				add("root-removed")
-			}
-		}
-	}
 	if op.K == "symlink" && !strings.HasPrefix(op.A[0], "/") && strings.Contains(op.A[0], "..") {
 		// a relative target with ".." created below a symlinked parent: the layers check it lexically
 		// from the unresolved link directory, BackupFS hands them the resolved one
@@ -605,7 +595,7 @@ func treeLabels(tree []Entry) []string {
 	return ls
 }
 
-var labelPriority = []string{"root-removed", "relative-name", "through-final-symlink", "rename-nonempty-dir", "link-over-tracked", "dangling-link-parent", "rename-dir-onto-alias", "removeall-above-location", "link-topology", "escaping-link", "unclean-link-target", "rename-onto-dir", "new-link-topology"}
+var labelPriority = []string{"relative-name", "through-final-symlink", "rename-nonempty-dir", "link-over-tracked", "dangling-link-parent", "rename-dir-onto-alias", "removeall-above-location", "link-topology", "escaping-link", "unclean-link-target", "rename-onto-dir", "new-link-topology"}
 
 // knownClass attributes an oracle failure under property prop to a recorded finding class: the first
 // label (in priority order) whose finding is listed for that property in KNOWN_FINDINGS.json; when
@@ -874,7 +864,7 @@ func runHistCase(c *HistCase, prop string) (*caseOut, error) {
 			for _, l := range e.labelsBefore(op) {
 				out.labels[l] = true
 				stepLabels[l] = true
-				if l == "relative-name" || l == "rename-nonempty-dir" || l == "root-removed" {
+				if l == "relative-name" || l == "rename-nonempty-dir" {
 					// aliasing keys / untracked children of a renamed directory stay in the tracking
 					// state for the rest of the case: later operations below the renamed directory
 					// fail in tryBackup (no parent copy in the backup) where the direct call succeeds
